@@ -441,7 +441,12 @@ class Check:
         ev = {"property_id": self.pid, "tier": self.tier, "seed": self.seed, "level": level,
               "coverage": cov, "assumptions": self.assumptions, "wall_s": round(time.time() - self.t0, 2),
               "violations": len(self.violations)}
-        with open(os.path.join(ROOT, "evidence", self.pid + ".json"), "w") as f:
+        # evidence/ describes runs against /repo itself; a run against a scratch checkout (VERIF_REPO, used to try
+        # breaking changes) or a replay must not overwrite it
+        evdir = os.path.join(ROOT, "evidence")
+        if os.path.realpath(REPO) != os.path.realpath("/repo") or self.replay:
+            evdir = os.path.join(BUILD, "evidence_scratch"); os.makedirs(evdir, exist_ok=True)
+        with open(os.path.join(evdir, self.pid + ".json"), "w") as f:
             json.dump(ev, f, indent=1, default=str)
         log("[%s] %s tier=%s seed=%d obligations %d/%d evaluations=%d violations=%d known=%d wall=%.1fs" % (
             self.pid, "FAIL" if self.violations else "ok", self.tier, self.seed, n_ok, n_ob, cov["evaluations"],
